@@ -8,6 +8,7 @@ import (
 	"flag"
 	"fmt"
 	"os"
+	"time"
 
 	"berty.tech/go-ipfs-log/entry"
 	"berty.tech/go-ipfs-log/io/cbor"
@@ -73,6 +74,11 @@ func main() {
 		stats = runFetch(*seed, *n, out, *thorough)
 	case "codec":
 		stats = runCodec(*seed, *n, out, *thorough)
+	case "conc":
+		stats = runConc(*seed, *n, out, *thorough)
+	case "conc-stress":
+		// free-running accessors against appends, merges, identity changes (use with `go run -race`)
+		stats = map[string]int{"Ops": stressOps(*seed, time.Duration(*n)*time.Millisecond)}
 	case "order":
 		stats = runOrder(*seed, *n, out, *thorough)
 	default:
